@@ -111,6 +111,16 @@ var programs = []string{
 	/* 33 */ "function v28s { v28a -> v28b }\nv28s | v28c",
 	/* 34 */ "%[1 2] -> foreach i { %[1 2] -> foreach j { v28a ; break foreach } }",
 	/* 35 */ "a [1..3] -> foreach --parallel 2 i { v28a }",
+	// structured variables and sub-shell results read as values (forks that are created for the
+	// conversion and released without ever being executed)
+	/* 36 */ "v = %{a: 1}; w = $v; v28a",
+	/* 37 */ "v = %[1 2]; out %[$v]; v28a",
+	/* 38 */ "v = %{a: 1}; v <~ %{b: 2}; v28a",
+	/* 39 */ "w = ${ tout json '{\"a\":1}' }; v28a",
+	/* 40 */ "v = %[1 2]; out @v $v[0]; v28a",
+	/* 41 */ "function v28j { v = %{a: 1}; out $v }\nv28j -> v28a",
+	/* 42 */ "try { v = %{a: 1}; w = $v; v28a; v28b }",
+	/* 43 */ "v = %{a: 1}; out \"$v\" ($v) $v.a; v28a",
 }
 
 func check(block string, runs int) {
